@@ -70,7 +70,7 @@ EXPANDABLE = set(IF_PRIMS) | {'else', 'or', 'fi', 'csname', 'expandafter', 'arab
 PRIMS = ['def', 'gdef', 'newcommand', 'renewcommand', 'let', 'csname', 'endcsname', 'expandafter', 'relax',
          'else', 'or', 'fi', 'newif', 'catcode', 'makeatletter', 'makeatother', 'begingroup', 'endgroup',
          'newcounter', 'setcounter', 'addtocounter', 'stepcounter', 'arabic', 'value', 'par', 'begin', 'end', 'item',
-         'textbf', 'mbox', 'emph', '\\', '(', ')', 'global', 'ifthenelse', 'whiledo', 'newboolean', 'setboolean', 'number'] + list(IF_PRIMS)
+         'textbf', 'mbox', 'emph', '\\', '(', ')', 'global', 'newenvironment', 'pvendenvfinish', 'ifthenelse', 'whiledo', 'newboolean', 'setboolean', 'number'] + list(IF_PRIMS)
 
 UNITS = {'pt': Fraction(1), 'pc': Fraction(12), 'in': Fraction(7227, 100), 'bp': Fraction(7227, 7200), 'cm': Fraction(7227, 254),
          'mm': Fraction(7227, 2540), 'dd': Fraction(1238, 1157), 'cc': Fraction(14856, 1157), 'sp': Fraction(1, 65536)}
@@ -829,6 +829,9 @@ class Interp(object):
         if name in ('tabular',):
             self.read_undelimited()          # column specification
             self.begin_group('cell')
+        elif isinstance(self.meaning.get(name), Macro):
+            # LaTeX: \begin{name} = \begingroup \name  (user-defined \name: \newenvironment, or a \newcommand used in environment form)
+            self.push([('cs', name)])
 
     def p_end(self, t):
         name = self.read_name_arg()
@@ -836,8 +839,39 @@ class Interp(object):
             raise TeXError('\\end{%s} does not match' % name)
         if name in ('tabular',):
             self.end_group('cell')
+        if isinstance(self.meaning.get('end' + name), Macro):
+            # \end{name} = \endname \endgroup
+            self.push([('cs', 'end' + name), ('cs', 'pvendenvfinish')])
+            return
         self.env.pop()
         self.end_group('env:' + name)
+
+    def p_pvendenvfinish(self, t):
+        name = self.env.pop()
+        self.end_group('env:' + name)
+
+    def p_newenvironment(self, t):
+        x = self._next_nonspace()
+        if x is None or x[0] != BG:
+            raise TeXError('bad \\newenvironment name')
+        name = ''.join(y[1] for y in self.read_balanced())
+        nargs, opt = 0, None
+        x = self._next_nonspace()
+        if x == (OTHER, '['):
+            nargs = int(''.join(y[1] for y in self.read_delimited([(OTHER, ']')]) if y[0] == OTHER))
+            x = self._next_nonspace()
+            if x == (OTHER, '['):
+                opt = self.read_delimited([(OTHER, ']')])
+                x = self._next_nonspace()
+        if x is None or x[0] != BG:
+            raise OutOfModel('unbraced \\newenvironment begin part')
+        b = self.read_balanced()
+        x = self._next_nonspace()
+        if x is None or x[0] != BG:
+            raise OutOfModel('unbraced \\newenvironment end part')
+        e = self.read_balanced()
+        self.define(name, Macro([], b, 'newcommand', nargs, opt), glob=False)
+        self.define('end' + name, Macro([], e, 'newcommand', 0, None), glob=False)
 
     def cell_boundary(self):
         if not self.env or self.env[-1] != 'tabular':
